@@ -57,6 +57,10 @@ type placement struct {
 	par   string // paragraph text before the code block ("" or "p")
 	lead  string // code text before the show on its line
 	trail string // code text after the show on its line
+	ctx   string // context named in keys; "" means paragraph (or codeblock if code)
+	// marker is the container syntax at the start of pre (list bullet, quote
+	// mark, heading mark): it is not text
+	marker string
 }
 
 var placements = []placement{
@@ -73,6 +77,24 @@ var placements = []placement{
 	{name: "q5-code-tab-glued", pre: "\tx", post: "y\n", code: true, lead: "x", trail: "y"},
 	{name: "q6-code-4sp-glued", pre: "    x", post: "y\n", code: true, lead: "x", trail: "y"},
 }
+
+// Paragraph positions inside containers, and a heading. They are enumerated
+// over the reduced alphabet and over the letters-digits-white-space alphabet.
+var containerPlacements = []placement{
+	{name: "s1-list-item", pre: "- ", post: "\n", marker: "- ", ctx: "listitem"},
+	{name: "s2-list-item-midline", pre: "- x ", post: " y\n", marker: "- ", ctx: "listitem"},
+	{name: "s3-ordered-item", pre: "1. ", post: "\n", marker: "1. ", ctx: "listitem"},
+	{name: "s4-blockquote", pre: "> ", post: "\n", marker: "> ", ctx: "blockquote"},
+	{name: "s5-blockquote-midline", pre: "> x ", post: " y\n", marker: "> ", ctx: "blockquote"},
+	{name: "s6-list-item-2nd-paragraph", pre: "- item\n\n  ", post: "\n", marker: "- ", ctx: "listitem"},
+	{name: "s7-paragraph-2nd-line", pre: "x\n", post: "\n"},
+	{name: "s8-heading", pre: "# ", post: "\n", marker: "# ", ctx: "heading"},
+	{name: "s9-heading-midline", pre: "# x ", post: " y\n", marker: "# ", ctx: "heading"},
+}
+
+// Values made only of letters, digits and white space are not harmless:
+// indentation, trailing spaces, tabs and line breaks are Markdown syntax too.
+var wsAlphabet = []string{"a", "1", " ", "\t", "\n"}
 
 // Placements after inline HTML in a document that begins with an indented code
 // block (and, as control, the same with the code block not at the start of
@@ -127,8 +149,15 @@ func (c converter) convert(src []byte) conv {
 	if err := c.md.Renderer().Render(&h, src, doc); err != nil {
 		panic("goldmark render: " + err.Error())
 	}
-	r := conv{html: h.String(), ast: astShape(doc)}
-	z := xhtml.NewTokenizer(bytes.NewReader(h.Bytes()))
+	r := htmlConv(h.Bytes())
+	r.ast = astShape(doc)
+	return r
+}
+
+// htmlConv reads the element structure and the text of an HTML fragment.
+func htmlConv(h []byte) conv {
+	r := conv{html: string(h)}
+	z := xhtml.NewTokenizer(bytes.NewReader(h))
 	var txt, code, outside strings.Builder
 	inCode := 0
 	for {
@@ -258,6 +287,9 @@ type site struct {
 	batch  *scriggo.Template
 	benign map[string]conv // conversion with the benign value "zz", by converter name
 	empty  map[string]conv // conversion of the template text alone (show removed)
+
+	mu      sync.Mutex
+	effects map[string]string // effect of values already evaluated alone
 }
 
 func buildSite(p placement) *site {
@@ -281,7 +313,7 @@ func buildSite(p placement) *site {
 	if err != nil {
 		panic("harness: cannot build the batch template of " + p.name + ": " + err.Error())
 	}
-	st := &site{p: p, tmpl: t, batch: bt, benign: map[string]conv{}, empty: map[string]conv{}}
+	st := &site{p: p, tmpl: t, batch: bt, benign: map[string]conv{}, empty: map[string]conv{}, effects: map[string]string{}}
 	out, err := st.render("zz")
 	if err != nil {
 		panic("harness: benign run: " + err.Error())
@@ -374,7 +406,7 @@ func (st *site) verdict(c converter, v, rendered string) (effect, detail string)
 		}
 		return "", ""
 	}
-	if g, w := normPara(got.text), normPara(stripHTML.Replace(st.p.pre)+v+stripHTML.Replace(st.p.post)); g != w {
+	if g, w := normPara(got.text), normPara(stripHTML.Replace(strings.Replace(st.p.pre, st.p.marker, "", 1))+v+stripHTML.Replace(st.p.post)); g != w {
 		return "text-content", fmt.Sprintf("expected text %q\nobserved text %q\nhtml %q", w, g, got.html)
 	}
 	return "", ""
@@ -446,8 +478,18 @@ func (st *site) effectOf(c converter, v string) (effect, detail, rendered string
 // by deleting characters, then by replacing characters with 'a'. The result
 // names the class of input that triggers the defect.
 func (st *site) minimalCore(c converter, v, effect string) string {
+	// the same few sub-values come back for every failing case: remember them
 	same := func(w string) bool {
-		e, _, _ := st.effectOf(c, w)
+		k := c.name + "\x00" + w
+		st.mu.Lock()
+		e, ok := st.effects[k]
+		st.mu.Unlock()
+		if !ok {
+			e, _, _ = st.effectOf(c, w)
+			st.mu.Lock()
+			st.effects[k] = e
+			st.mu.Unlock()
+		}
 		return e == effect
 	}
 	rs := []rune(v)
@@ -593,9 +635,18 @@ func spaces(tier string) []kit.Space {
 					if p.code {
 						ctx = "codeblock"
 					}
+					if p.ctx != "" {
+						ctx = p.ctx
+					}
 					o.OK = false
 					o.Class = "fail:" + effect
-					o.Key = fmt.Sprintf("ctx=%s effect=%s trigger-chars=%s", ctx, effect, className(core))
+					trig := className(core)
+					if p.marker != "" && strings.HasPrefix(effect, "elements") && strings.Trim(core, " \t\na1h") == "" && strings.Contains(core, "\n") {
+						// a line break (with or without indentation) ends or splits the
+						// container: one defect, whatever the resulting element list
+						effect, trig = "line-break-changes-the-block-structure", "NEWLINE"
+					}
+					o.Key = fmt.Sprintf("ctx=%s effect=%s trigger-chars=%s", ctx, effect, trig)
 					o.Detail = fmt.Sprintf("placement %s, template %q\ns = %q (minimal trigger %q)\nrendered Markdown %q\nconverter goldmark CommonMark\n%s", p.name, p.pre+"{{ s }}"+p.post, v, core, rendered, detail)
 					return o
 				}
@@ -625,6 +676,12 @@ func spaces(tier string) []kit.Space {
 	for _, p := range htmlPlacements {
 		add(p, paraCore, coreN-1, ".core")
 	}
+	for _, p := range containerPlacements {
+		add(p, paraCore, coreN-1, ".core")
+	}
+	for _, p := range append(append([]placement{}, placements[:6]...), containerPlacements...) {
+		add(p, wsAlphabet, coreN+2, ".ws")
+	}
 	for _, p := range placements {
 		if p.code {
 			add(p, codeCore, coreN+1, ".core")
@@ -632,7 +689,7 @@ func spaces(tier string) []kit.Space {
 			add(p, paraCore, coreN, ".core")
 		}
 	}
-	return sps
+	return append(sps, round2Spaces(tier)...)
 }
 
 func main() {
